@@ -25,21 +25,23 @@ Theorem C11_settings_monotone : forall (ch : list sig) (a b : list string),
   incl a b -> call_ok ch b = true -> call_ok ch a = true.
 Proof. exact call_ok_mono. Qed.
 
-(* PARTIAL (guard: class is not Drawer): every concrete search class of the current source reads back *)
-Theorem C11_all_searches_partial : forall c : search_class,
-  In c search_classes -> sc_name c <> "Drawer" ->
+(* FULL: every concrete search class of the current source (Gen.v is regenerated from /repo on every run)
+   reads back, for every subset of the keys autoconf's instance_as_dict can persist for it -- own and
+   inherited constructor parameters, those of NonLinearSearch's bases (initial_values, inplace), and the
+   identifier fields.  The correspondence checks `keys_known` for every search.json actually written. *)
+Theorem C11_all_searches : forall c : search_class,
+  In c search_classes ->
   forall keys, incl keys (serialised_keys c) -> reload_ok c keys = true.
-Proof. exact all_searches_partial. Qed.
+Proof. exact all_searches. Qed.
 
-(* REFUTED for Drawer at the pinned commit: keys it persists cannot be fed back to its constructor *)
-Theorem C11_all_searches_refuted :
+Theorem C11_keys_known_is_incl : forall (c : search_class) (keys : list string),
+  keys_known c keys = true <-> incl keys (serialised_keys c).
+Proof. exact keys_known_incl. Qed.
+
+(* history: the Drawer constructor as it was at the pinned commit did not read back (repaired by 6031051) *)
+Theorem C11_drawer_pinned_refuted :
   exists keys, incl keys (serialised_keys drawer_pinned) /\ reload_ok drawer_pinned keys = false.
 Proof. exact drawer_refuted. Qed.
-
-(* with the proposed repair (kwargs.pop("number_of_cores", None)) Drawer reads back *)
-Theorem C11_drawer_repaired : forall keys,
-  incl keys (serialised_keys drawer_repaired) -> reload_ok drawer_repaired keys = true.
-Proof. exact drawer_repaired_ok. Qed.
 
 (* consequence of an unreadable search in the faithful model: the whole directory is not loaded *)
 Theorem C11_unreadable_search_aborts_load : forall (classes : list search_class) (uf co : bool) (dir : list folder),
@@ -72,6 +74,41 @@ Theorem C11_analyses_children : forall (classes : list search_class) (uf co : bo
     (forall k, In k kids -> In k db /\ r_parent k = Some (f_reload_id f) /\ r_name k = None) /\
     map r_jsons kids = f_analyses f.
 Proof. exact analyses_children. Qed.
+
+(* id = folder name: needs, per fit, that the identifier recomputed from the files is the written one
+   (C07/C08's business; the correspondence evaluates `reload_faithful` on every folder and it is false
+   exactly on the model shapes recorded as findings) *)
+Theorem C11_id_is_folder_name : forall (classes : list search_class) (uf co : bool) (dir : list folder),
+  wf classes uf co dir ->
+  exists db, scrape classes uf co dir [] = Loaded db /\
+    forall f, In f (outputs co dir) -> written_under_folder_name f ->
+      exists r, In r db /\ holds r f /\ r_id r = folder_name f /\
+                forall r', In r' db -> r_id r' = folder_name f -> r' = r.
+Proof. exact id_is_folder_name. Qed.
+
+(* info.  PARTIAL (guard: what the info table can hold of the dictionary is the dictionary, i.e. all values are strings) *)
+Theorem C11_info_partial : forall (classes : list search_class) (uf co : bool) (dir : list folder),
+  wf classes uf co dir ->
+  exists db, scrape classes uf co dir [] = Loaded db /\
+    forall f, In f (outputs co dir) -> f_info_held f = f_info f ->
+      exists r, In r db /\ r_id r = f_reload_id f /\ r_info r = f_info f.
+Proof. exact info_held. Qed.
+
+(* REFUTED without the guard: a loadable directory whose fit row does not hold the info of info.json *)
+Theorem C11_info_refuted :
+  exists dir f, wf [] true false dir /\ In f (outputs false dir) /\
+    exists db, scrape [] true false dir [] = Loaded db /\
+      forall r, In r db -> r_id r = f_reload_id f -> r_info r <> f_info f.
+Proof. exact info_refuted. Qed.
+
+(* a second add_directory into the same database keeps every fit loaded before and loses nothing of the new directory *)
+Theorem C11_second_load : forall (classes : list search_class) (uf co : bool) (dir : list folder) (db0 : list row),
+  wf0 classes uf co dir db0 ->
+  exists db, scrape classes uf co dir db0 = Loaded db /\
+    (forall r, In r db0 -> In r db) /\
+    (forall f, In f (outputs co dir) -> exists r, In r db /\ holds r f) /\
+    NoDup (map r_id db).
+Proof. exact second_load. Qed.
 
 (* ---- grid searches: one parent linked to exactly its cells ---- *)
 (* PARTIAL, code as pinned (id = text of .is_grid_search): the guard `wf ... false` demands distinct marker texts *)
@@ -136,7 +173,8 @@ Theorem C11_prefit_interrupted_harmless :
   = scrape classes uf co (map write_fit (filter healthy specs)) db.
 Proof. exact prefit_interrupted_harmless. Qed.
 
-Print Assumptions C11_all_searches_partial.
+Print Assumptions C11_all_searches.
+Print Assumptions C11_second_load.
 Print Assumptions C11_lossless.
 Print Assumptions C11_grid_fixed.
 Print Assumptions C11_routes_agree.
